@@ -291,7 +291,7 @@ def connector(ck):
         ck.ob("C10.secondary-once", ot, m.ast, ("@clr", True) in ef[m.id], "on_timeout clears self.timeout before starting the secondary family (so it is started once)")
         ck.ob("C10.secondary-once", ot, m.ast, has(gfot[m.id], "self.future.done()", False), "no new attempt is started once the connector is done")
         c = q.find_calls(m.ast, "self.try_connect")[0]
-        ck.ob("C10.secondary-once", ot, m.ast, len(c.args) == 1 and "self.secondary_addrs" in {q.dotted(x) for x in ast.walk(c.args[0])}, "the timer starts the secondary family's queue")
+        ck.ob("C10.secondary-once", ot, m.ast, len(c.args) == 1 and _mentions(ot.node, c.args[0], lambda x: q.dotted(x) == "self.secondary_addrs"), "the timer starts the secondary family's queue")
     directs = ocd.cfg.stmt_nodes(node_calls("self.on_timeout"))
     by_name = {m.name: m for m in methods}
 
@@ -327,7 +327,7 @@ def connector(ck):
             ck.ob("C10.secondary-once", fi, c, has(gfx[node.id], "%s is None" % hpath, False), "a timer is removed through %s only where that attribute is known to still hold the handle" % hpath)
     st_ = ck.func(TC, CN + ".start")
     prim = [c for c in q.find_calls(st_.node, "self.try_connect")]
-    ck.ob("C10.secondary-once", st_, st_.node, len(prim) == 1 and "self.primary_addrs" in {q.dotted(x) for x in ast.walk(prim[0])}, "start() begins with exactly one attempt, in the primary family", construct="start: one primary attempt")
+    ck.ob("C10.secondary-once", st_, st_.node, len(prim) == 1 and _mentions(st_.node, prim[0], lambda x: q.dotted(x) == "self.primary_addrs"), "start() begins with exactly one attempt, in the primary family", construct="start: one primary attempt")
     for fi in methods:
         if fi not in (st_, ocd, ot):
             ck.ob("C10.one-attempt-per-call", fi, fi.node, not q.find_calls(fi.node, "self.try_connect"), "attempts are started only by start, on_connect_done and on_timeout", construct="%s calls try_connect" % fi.name)
